@@ -277,15 +277,16 @@ Fixpoint conforms (t : cty) (w : cv) {struct t} : bool :=
       match w with
       | CNil => true
       | CMap kvs =>
-          (* only declared fields; every declared field that is present conforms (or is its declared
-             default); a field that is absent is neither required nor defaulted *)
+          (* only declared fields; every declared field that is present conforms, and is not null when
+             the field declares a default (the default stands wherever the client gave nothing or
+             null); a field that is absent is neither required nor defaulted *)
           forallb (fun kv => declared fields (fst kv)) kvs &&
           (fix go (fs : list (nat * (cty * option cv))) : bool :=
              match fs with
              | [] => true
              | f :: r =>
                  match lookupc (fst f) kvs with
-                 | Some w' => conforms (fst (snd f)) w' || match snd (snd f) with Some _ => true | None => false end
+                 | Some w' => conforms (fst (snd f)) w' && match snd (snd f) with Some _ => negb (is_cnil w') | None => true end
                  | None => negb (is_nn (fst (snd f))) && match snd (snd f) with Some _ => false | None => true end
                  end && go r
              end) fields
